@@ -2,6 +2,7 @@
 From Coq Require Import Lia.
 From AV Require Import Base.Bytes Base.Outcome Hash.HashModel Spec.SpecOps Xml.TablesOk Tree.Heap Tree.Ops Tree.Script Tree.Inv.
 From AV Require Import Tree.NoPanic Tree.NoPanicProofsBase Tree.NoPanicProofsOps1 Tree.NoPanicProofsDepth.
+From AV Require Import Tree.NoPanicProofsClosed Tree.NoPanicProofsOps2 Tree.NoPanicProofsOps3 Tree.NoPanicProofsOps4.
 Open Scope string_scope.
 Open Scope list_scope.
 Open Scope N_scope.
@@ -17,6 +18,8 @@ Variable LATEST : N.
 Variable root_attrs : list (N * cdata).
 Hypothesis OK12 : tables_ok12 T = true.
 Hypothesis CHECK : forall fn s, exists b, check_fn fn s = Val b.
+Hypothesis EN_OK : nametab_ok tab_en = true.                  (* EnumItem::from_str never indexes out of range *)
+Hypothesis SHORT_OK : name_ok tab_el (name_short_name T).       (* ElementName::ShortName is an element name *)
 
 Notation ENV f := (f T tab_el tab_en check_fn LATEST root_attrs OK12 CHECK) (only parsing).
 Notation PanicFree := (PanicFree T tab_el tab_en).
@@ -25,17 +28,26 @@ Notation run12 := (run12 T tab_el tab_en check_fn LATEST root_attrs).
 
 Theorem no_panic_covered w o : covered_op o = true -> PanicFree w -> op_wf w o -> runs (run12 o) w.
 Proof.
-  intros COV PF WF. unfold run12, run_op. destruct o; try discriminate COV; cbn [op_wf] in WF; unfold h_ok in WF.
+  intros COV PF WF. unfold run12, run_op. destruct o; try discriminate COV; cbn [op_wf] in WF; unfold h_ok, m_ok, f_ok in WF.
   - apply runs_welem. apply (ENV np_create_sub_element); tauto.
   - apply runs_welem. apply (ENV np_create_sub_element_at); tauto.
+  - apply runs_welem. apply (ENV np_create_named); tauto.
+  - apply runs_welem. apply (ENV np_create_named_at); tauto.
+  - apply runs_wunit. apply (ENV np_set_item_name); tauto.
+  - apply runs_wunit. apply (ENV np_set_character_data); try tauto.
+    intros b ->. discriminate COV.
   - apply runs_wunit. apply (ENV np_remove_cdata); tauto.
   - apply runs_wunit. apply (ENV np_insert_citem); tauto.
   - apply runs_wunit. apply (ENV np_remove_citem); tauto.
+  - apply runs_wunit. apply (ENV np_set_reference_target EN_OK); tauto.
   - apply runs_wunit. apply (ENV np_set_attribute); tauto.
   - eapply runs_then; [apply (ENV np_remove_attribute); tauto|intros; apply runs_ret].
   - apply runs_wunit. apply (ENV np_set_comment); tauto.
   - apply runs_welem. apply (ENV np_get_or_create); tauto.
+  - apply runs_welem. apply (ENV np_get_or_create_named); tauto.
   - eapply runs_then; [apply (ENV np_new_model)|intros; apply runs_ret].
+  - eapply runs_then; [apply (ENV np_create_file); tauto|intros; apply runs_ret].
+  - apply runs_wunit. apply (ENV np_add_to_file); tauto.
 Qed.
 
 Theorem no_panic_covered' w o : covered_op o = true -> PanicFree w -> op_wf w o ->
